@@ -10,7 +10,7 @@ ids="$@"; [ -z "$ids" ] && ids=$(ls /verif/seeded)
 for id in $ids; do
   d=/verif/seeded/$id
   [ -f $d/patch.diff ] || continue
-  prop=${PROP:-${id%%-*}}
+  prop=${PROP:-${id%%-*}}; prop_hit=
   if ! git -C /repo apply --check $d/patch.diff 2>/dev/null; then
     echo "$id: patch does not apply to the current tree (code changed since it was made)"; 
     python3 - $d <<'PY'
@@ -22,15 +22,24 @@ PY
   git -C /repo apply $d/patch.diff
   cp evidence/$prop.json /var/tmp/evidence_$prop.keep 2>/dev/null   # the run on the changed tree must not leave its evidence behind
   out=$(./check $prop quick 2>&1); rc=$?
+  # extra properties whose check also covers the changed code (meta.json "also"): the change counts as caught if any of them reports it
+  if [ $rc -ne 1 ] && [ -z "$PROP" ]; then
+    for p2 in $(python3 -c "import json,sys; print(' '.join(json.load(open('$d/meta.json')).get('also',[])))" 2>/dev/null); do
+      cp evidence/$p2.json /var/tmp/evidence_$p2.keep 2>/dev/null
+      out2=$(./check $p2 quick 2>&1); rc2=$?
+      [ -f /var/tmp/evidence_$p2.keep ] && mv /var/tmp/evidence_$p2.keep evidence/$p2.json
+      if [ $rc2 -eq 1 ]; then out="$out2"; rc=1; prop_hit=$p2; break; fi
+    done
+  fi
   git -C /repo checkout -- . 
   [ -f /var/tmp/evidence_$prop.keep ] && mv /var/tmp/evidence_$prop.keep evidence/$prop.json
   viol=$(echo "$out" | grep "^VIOLATION" | head -5)
   echo "$id: exit=$rc $(echo "$viol" | head -1 | cut -c1-160)"
-  python3 - $d $rc "$viol" "$(echo "$out" | tail -3)" <<'PY'
+  PROP_HIT=$prop_hit python3 - $d $rc "$viol" "$(echo "$out" | tail -3)" <<'PY'
 import json,sys
 d,rc,viol,tail=sys.argv[1:5]
 import os
-r={"applies":True,"check_exit":int(rc),"caught":int(rc)==1,"violations":[v for v in viol.split('\n') if v],"tail":tail,"checked_property":os.environ.get("PROP","")}
+r={"applies":True,"check_exit":int(rc),"caught":int(rc)==1,"violations":[v for v in viol.split('\n') if v],"tail":tail,"checked_property":os.environ.get("PROP","") or os.environ.get("PROP_HIT","")}
 json.dump(r,open(d+'/result.json','w'),indent=1)
 PY
 done
